@@ -245,7 +245,7 @@ inline std::string caseText(const std::string& law, const std::vector<uint64_t>&
 }
 
 // ---------------------------------------------------------------- running one case
-struct Verdict { bool ok = true, skipped = false; std::string msg, desc, knownHit; bool nontrivial = false; size_t used = 0; std::vector<const char*> labels; };
+struct Verdict { bool ok = true, skipped = false; std::string msg, desc, knownHit; bool nontrivial = false; size_t used = 0, avail = 0; std::vector<const char*> labels; };
 
 struct Global {
   const Law* law = nullptr;
@@ -294,13 +294,14 @@ inline Verdict runCase(const Law& law, Src& src) {
 
 // ---------------------------------------------------------------- statistics of a run
 struct Stats {
-  long evaluations = 0, skippedKnown = 0, skippedShard = 0, nontrivial = 0;
+  long evaluations = 0, skippedKnown = 0, skippedShard = 0, nontrivial = 0, exhausted = 0;
   std::unordered_set<uint64_t> ntHashes; size_t ntCap = 250000; bool ntCapped = false;
   std::map<std::string, long> labels, knownHits;
   std::vector<std::string> firstSamples, ntSamples; uint64_t resv = 12345; long ntSeen = 0;
   void add(const Verdict& v) {
     if (v.skipped) { if (v.knownHit.empty()) ++skippedShard; else { ++skippedKnown; ++knownHits[v.knownHit]; } return; }
     ++evaluations;
+    if (v.avail && v.used > v.avail) ++exhausted;   // the law asked for more choices than were generated (the rest decoded as 0)
     for (const char* l : v.labels) ++labels[l];
     if (firstSamples.size() < 2) firstSamples.push_back(v.desc);
     if (v.nontrivial) {
@@ -317,7 +318,7 @@ inline void writeStats(const std::string& path, const Law& law, const Stats& st,
   std::ofstream o(path);
   o << "{\"law\":\"" << law.name << "\",\"kind\":\"" << (law.kind == ENUM ? "enum" : "rc") << "\",\"evaluations\":" << st.evaluations
     << ",\"nontrivial\":" << st.nontrivial << ",\"skipped_known\":" << st.skippedKnown << ",\"skipped_shard\":" << st.skippedShard
-    << ",\"nt_capped\":" << (st.ntCapped ? "true" : "false") << ",\"exhaustive\":" << (exhaustive ? "true" : "false")
+    << ",\"exhausted\":" << st.exhausted << ",\"nt_capped\":" << (st.ntCapped ? "true" : "false") << ",\"exhaustive\":" << (exhaustive ? "true" : "false")
     << ",\"failed\":" << (failed ? "true" : "false") << ",\"fail_file\":\"" << jsonEscape(failFile) << "\",\"fail_msg\":\"" << jsonEscape(failMsg)
     << "\",\"wall_s\":" << wall << ",\"nt_rule\":\"" << jsonEscape(law.ntRule) << "\",\"labels\":{";
   bool first = true;
@@ -509,7 +510,7 @@ inline int harnessMain(int argc, char** argv, const char* propertyId) {
         if (r == 0) { VecSrc s0(ch); (void)s0; v.ok = true; v.desc = "(fork mode)"; }
         else { v.ok = false; v.msg = r == 2 ? "died in forked child" : "law failed in forked child"; v.used = ch.size(); }
       } else {
-        VecSrc s(ch); v = runCase(L, s);
+        VecSrc s(ch); v = runCase(L, s); v.avail = ch.size();
       }
       if (!failed) st.add(v);   // statistics only for the generation phase, not for shrinking
       if (!v.ok && !v.skipped) { if (!failed) shrinkT0 = cpuS(); failed = true; lastFail = ch; lastV = v; RC_FAIL(v.msg); }
